@@ -1,0 +1,9 @@
+//go:build verif
+
+package mp4
+
+// Add-only observation hooks for the C02 verification harness.
+
+// VerifC02FirstSampleFlags returns the stored first-sample-flags field of a trun, whether or not its
+// presence flag is set.
+func VerifC02FirstSampleFlags(t *TrunBox) uint32 { return t.firstSampleFlags }
